@@ -1765,7 +1765,13 @@ end Wf
 def Src.registersAny (p : Program) (isPos : Bool) (script lang : Tag) : Bool :=
   (Src.entries p).any fun e => e.lookup.isPos == isPos && e.regs.any fun (_, s, l) => s == script && l == lang
 
-/-- **The compiler** (fea-rs as it is). -/
-def compile (p : Program) : OT.Tables := compileWith {} p
+/-- all three repairs of the anonymous lookups (fix commits 97654e0, e254cf2, 60b5013 in /repo) -/
+def Cmp.Fixes.all : Cmp.Fixes := { anonSingle := true, anonLig := true, anonLigPrefix := true }
+
+/-- fea-rs before those repairs (kept for the refutation of the full statement on the old code) -/
+def compileOld (p : Program) : OT.Tables := compileWith {} p
+
+/-- **The compiler** (fea-rs as it is: with the three repairs). -/
+def compile (p : Program) : OT.Tables := compileWith Cmp.Fixes.all p
 
 end Fontc.FeaCompile
